@@ -315,7 +315,9 @@ class PdoMap:
         if can_id == self.cob_id and not is_transmitting:
             with self.receive_condition:
                 self.is_received = True
-                self.data = data
+                # Keep an own copy: the same buffer is handed to every
+                # subscriber of this CAN-ID and variables are written in place
+                self.data = bytearray(data)
                 if self.timestamp is not None:
                     self.period = timestamp - self.timestamp
                 self.timestamp = timestamp
